@@ -1,5 +1,7 @@
 """Property table: which contract modules carry which property, and what stays assumed."""
 
+SPY_ASSUME = ['bounded end-to-end run (ProcessArguments): every program of the generated project is a spy script that records argv and two environment variables; the Ninja side is evaluated by specs/ninja_eval.py (no ninja binary) and run by /bin/sh in dependency order']
+
 SH_ASSUME = [
     'specs/sh.py (POSIX sh token recognition as a fold) is the formal reading of "what /bin/sh receives"; validated '
     'against /bin/sh (dash) by specs/validate_sh.py; assignment-word/reserved-word treatment of the *command word* '
@@ -20,7 +22,7 @@ TABLE['C02'] = {
     'validate': ['sh'],
     'modules': ['contracts.ninja', 'contracts.bounded_cmd', 'contracts.linking', 'contracts.argv'],
     'level': 'proof',
-    'assumptions': SH_ASSUME + NJ_ASSUME,
+    'assumptions': SH_ASSUME + NJ_ASSUME + SPY_ASSUME,
     'trusted_base': ['PyVC (pyvc/*.py): symbolic interpreter, fold normaliser, induction schemas', 'z3 5.1.0',
                      'specs/sh.py', 'specs/ninja.py'],
     'not_covered': ['how builtins/*.py assemble the argument lists handed to the writer', 'ninja rule/build scoping (command = ${cmd})', 'cmd /s /c wrapping of shell lists on Windows', 'NinjaFile._write_rule and NinjaFile.write as a whole'],
@@ -38,7 +40,7 @@ TABLE['C01'] = {
     'validate': ['sh', 'make'],
     'modules': ['contracts.make', 'contracts.bounded_cmd', 'contracts.linking', 'contracts.argv'],
     'level': 'proof',
-    'assumptions': SH_ASSUME + MK_ASSUME,
+    'assumptions': SH_ASSUME + MK_ASSUME + SPY_ASSUME,
     'trusted_base': ['PyVC (pyvc/*.py)', 'z3 5.1.0', 'specs/sh.py', 'specs/make.py'],
     'not_covered': ['how builtins/*.py assemble the argument lists handed to the writer (which option lands in which variable)', 'syntax_string fragments; define/endef bodies (Makefile._write_define); join_lines, local_env, global_env (bounded run with the real sh)', 'nested test-driver quoting (_build_commands)', 'Makefile.write sections other than the include statements'],
     'level_text': 'Deductive proof, for all strings, that the sh-quoting kernel (posix.inner_quote_info, wrap_quotes, quote_info) and the make escaping kernel (Writer.escape_str in all five syntaxes, Writer.write for str / shell_literal / literal / jbos / BasePath fragments) make GNU make + sh read back exactly the argument, in a recipe line and in a := assignment; for argument lists of any length that tween / write_each / write_shell write the blank-joined fragment texts and that such a text is read back as exactly that many separate words; that _write_variable / _write_rule put every part in the escaping context of its position; and that option_list.collect keeps every string (also the empty one) in order. Three genuine defects are recorded as known findings and the failing obligations are re-proved outside their witnesses. Whole-script sentences of the property are not carried.',
@@ -91,7 +93,7 @@ TABLE['C09'] = {
 }
 
 TABLE['C03'] = {
-    'modules': ['contracts.graph', 'contracts.make', 'contracts.ninja', 'contracts.crossbackend'],
+    'modules': ['contracts.graph', 'contracts.make', 'contracts.ninja', 'contracts.crossbackend', 'contracts.emitters'],
     'level': 'proof',
     'assumptions': [
         'Makefile._target_str / NinjaFile._output_str are abstracted as an uninterpreted function from the thing to its escaped text (their injectivity up to the escape is C04)',
@@ -128,6 +130,7 @@ TABLE['C17'] = {
         'a filtering list comprehension keeps exactly the elements that satisfy the condition (stated as ALLNEF)',
         'the invariant and the postcondition are proved at an arbitrary version v (ghost constant)',
         'PkgConfigInfo.finalize is verified with RequirementSet operations as recorded opaque events (their own algebra is covered bounded only)',
+        'the installed mopack cannot start (pkg_resources missing): projects that need it get a stub `mopack` written by the harness that answers only resolve / list-files / linkage',
     ],
     'trusted_base': ['PyVC (pyvc/*.py)', 'z3 5.1.0', 'specs/verorder.py'],
     'not_covered': ['Requirement.__iand__, RequirementSet.add/merge_from/split bodies', '.pc text writer beyond the bounded run; real pkg-config; consumer compilation; auto_fill'],
@@ -261,16 +264,17 @@ TABLE['C18'] = {
 
 
 TABLE['C06'] = {
-    'modules': ['contracts.crossbackend'],
-    'level': 'exploration',
-    'explanation': 'a relational property across three hand-written emitters per builtin over duck-typed rule objects: a product-program contract per builtin was not built, nothing is proved (the emitter kernels under contract are claimed under C01/C02/C03). The check is a bounded runtime contract on the real pipeline: two generated projects (libraries with forwarded options, tests with an environment, install, pkg-config, alias; build_step / command / copy_file with blanks, `$` and quotes in names and options) are configured for Make and for Ninja by the tree under test. GNU make reports the Make side itself (make -n -B for command lines, make -pn for the dependency relation); build.ninja is read with the evaluator specs/ninja_eval.py; compile_commands.json of each backend is matched against the compile steps of that backend. Compared: buildable file targets, dependency relation, argument lists (program, arguments, environment assignments) of every build step and of test / install / uninstall / dist.',
+    'modules': ['contracts.crossbackend', 'contracts.emitters'],
+    'level': 'other',
+    'explanation': 'a relational property across three hand-written emitters per builtin over duck-typed rule objects. Proved (deductive, abstract step object, dependency lists of length 0..2): the Make and the Ninja emitter of custom steps (command / build_step) each hand their backend exactly one description of the step -- outputs, every consumed file (files and extra_deps), the command line with its environment, always-outdated iff declared -- so the two build files agree on such steps. For all other builtins no product-program contract was built (the emitter kernels under contract are claimed under C01/C02/C03). The check is a bounded runtime contract on the real pipeline: seven generated projects (libraries with forwarded options, tests with an environment, install, pkg-config, alias; build_step / command / copy_file with blanks, `$` and quotes in names and options) are configured for Make and for Ninja by the tree under test. GNU make reports the Make side itself (make -n -B for command lines, make -pn for the dependency relation); build.ninja is read with the evaluator specs/ninja_eval.py; compile_commands.json of each backend is matched against the compile steps of that backend. Compared: buildable file targets, dependency relation, argument lists (program, arguments, environment assignments) of every build step and of test / install / uninstall / dist.',
     'assumptions': ['specs/ninja_eval.py reads build.ninja as ninja would (written from the ninja manual; no ninja binary in the sandbox; build.ninja itself is written with a stub `ninja` that only answers --version)',
-                    'documented backend-specific differences normalised away: Ninja-only -fdiagnostics-color, Make directory sentinels and the depfixer line, the regeneration statement, a leading ./'],
-    'trusted_base': [],
-    'not_covered': ['builtins not used by the two generated projects', 'configure options (library modes, install dirs, environment-provided flags)', 'working directory of steps (both backends run in the build directory by construction)', 'msbuild'],
-    'level_text': 'Bounded exploration only (labelled): two generated projects, both backends. Nothing is proved for this property.',
-    'level_note': 'bounded stand-in only; no relational contract was built (DESIGN.md 8.3).',
-    'technique': 'bounded runtime contracts on the real pipeline, GNU make as the reader of the Make side (stand-in; no deductive obligations)',
+                    'documented backend-specific differences normalised away: Ninja-only -fdiagnostics-color, Make directory sentinels, the stamp file of a step with several outputs and the depfixer line, the regeneration statement, a leading ./',
+                    'the installed mopack cannot start (pkg_resources missing): projects that need it get a stub `mopack` written by the harness that answers only resolve / list-files / linkage'],
+    'trusted_base': ['PyVC (pyvc/*.py)', 'z3 5.1.0'],
+    'not_covered': ['emitters of compile / link / copy_file / install / test / pkg-config steps (bounded only)', 'builtins not used by the seven generated projects', 'configure options (library modes, install dirs, environment-provided flags)', 'working directory of steps (both backends run in the build directory by construction)', 'msbuild'],
+    'level_text': 'Partial: the two emitters of custom steps are proved to refine one step description; everything else is a bounded exploration (labelled) of seven generated projects in both backends.',
+    'level_note': 'deductive for make_command / ninja_command only; the cross-backend comparison of whole projects is a bounded stand-in (DESIGN.md 8.3).',
+    'technique': 'contract-based proof that the Make and Ninja emitters of custom steps refine one step description (PyVC + z3) and bounded runtime contracts on the real pipeline with GNU make as the reader of the Make side (stand-in, not counted as proved)',
 }
 
 
